@@ -21,5 +21,8 @@ pub fn num(s: &str) -> u64 {
 
 /// Silences the default panic hook (panics are observations here) and returns a guard-free handle.
 pub fn quiet_panics() {
+    if std::env::var("VERIF_LOUD_PANICS").is_ok() {
+        return;
+    }
     std::panic::set_hook(Box::new(|_| {}));
 }
